@@ -112,24 +112,77 @@ def read_state(f):
         for k, c in C.filter_by_type(t, todict=True).items():
             cons.append([t, k, payload(t, c)])
     cons.sort(key=lambda x: (x[1], x[0]))
-    ctypes = sorted([k, t] for k, t in C.construct_types().items())
-    caxes = sorted([k, list(v)] for k, v in C.data_axes().items())
+    ct = C.construct_types()
+    ctypes = sorted([k, t] for k, t in ct.items())
+    da = C.data_axes()
+    caxes = sorted([k, list(v)] for k, v in da.items())
     d = f.get_data(None)
     fshape = None if d is None else [int(n) for n in d.shape]
     fax = f.get_data_axes(default=None)
-    return {"cons": cons, "ctypes": ctypes, "caxes": caxes, "fshape": fshape,
-            "faxes": None if fax is None else list(fax)}
+    out = {"cons": cons, "ctypes": ctypes, "caxes": caxes, "fshape": fshape,
+           "faxes": None if fax is None else list(fax)}
+    # what was returned is the caller's: overwrite it in place, so that a
+    # collection that aliases the container's own state shows up on the next read
+    scribble(ct)
+    scribble(da)
+    scribble(C.todict())
+    scribble(f.domain.constructs.data_axes())
+    scribble(f.domain.constructs.construct_types())
+    if isinstance(fax, list):
+        fax[:] = ["scribble"]
+    return out
+
+
+def scribble(d):
+    if isinstance(d, dict):
+        for k in list(d):
+            v = d[k]
+            if isinstance(v, list):
+                v[:] = ["scribble"]
+        d.clear()
+        d["scribble"] = ("scribble",)
 
 
 # --------------------------------------------------------------------------
 # the property oracle on the live object
 # --------------------------------------------------------------------------
-def oracle(f):
+def probe(C, key, expect, bad, who):
+    """Membership, look-up and get of one key must agree with each other."""
+    try:
+        inside = key in C
+    except Exception as e:
+        bad.append(["i", f"{who}: `{key!r} in constructs` raised {type(e).__name__}"])
+        return
+    if inside != expect:
+        bad.append(["i", f"{who}: `{key!r} in constructs` is {inside} but the key is "
+                         f"{'held' if expect else 'not held'}"])
+    try:
+        C[key]
+        got = True
+    except KeyError:
+        got = False
+    except Exception as e:
+        bad.append(["i", f"{who}: constructs[{key!r}] raised {type(e).__name__}"])
+        return
+    if got != expect:
+        bad.append(["i", f"{who}: constructs[{key!r}] {'succeeds' if got else 'raises KeyError'} but the key is "
+                         f"{'held' if expect else 'not held'}"])
+    if (C.get(key) is not None) != expect:
+        bad.append(["i", f"{who}: constructs.get({key!r}) disagrees with the constructs held"])
+    if (C.construct_type(key) is not None) != expect:
+        bad.append(["i", f"{who}: construct_type({key!r}) disagrees with the constructs held"])
+
+
+def oracle(f, probes=()):
     bad = []
     C = f.constructs
     try:
         todict = C.todict()
         types = C.construct_types()
+        if sorted(C.keys()) != sorted(todict) or len(list(C.values())) != len(todict) or len(list(iter(C))) != len(todict):
+            bad.append(["i", f"keys()/values()/iter of the constructs disagree with todict(): {sorted(C.keys())} vs {sorted(todict)}"])
+        for k in set(probes) | set(types) | set(todict) | set(C.data_axes()):
+            probe(C, k, k in todict, bad, "field")
         per_type = {t: C.filter_by_type(t, todict=True) for t in ALL_TYPES}
         # (i) key -> one construct of the matching type
         if len(C) != len(todict) or len(types) != len(todict) or set(types) != set(todict):
@@ -190,8 +243,14 @@ def oracle(f):
         DC = dom.constructs
         expect = {k for k in todict if types.get(k) not in DOMAIN_IGNORES}
         dkeys = set(DC.todict())
-        if dkeys != expect or len(DC) != len(expect):
-            bad.append(["v", f"domain sees {sorted(dkeys)} (len {len(DC)}), field has {sorted(expect)}"])
+        if dkeys != expect or len(DC) != len(expect) or set(DC.keys()) != expect or set(DC.construct_types()) != expect:
+            bad.append(["v", f"domain sees {sorted(dkeys)} (len {len(DC)}, keys {sorted(DC.keys())}, "
+                             f"typed {sorted(DC.construct_types())}), field has {sorted(expect)}"])
+        for k in set(probes) | set(types) | dkeys:
+            probe(DC, k, k in expect, bad, "domain view")
+        for k, a in DC.filter_by_type("domain_axis", todict=True).items():
+            if a.get_size(None) != axes_sizes.get(k):
+                bad.append(["v", f"domain axis {k!r} has size {a.get_size(None)} in the view, {axes_sizes.get(k)} in the field"])
         for k in dkeys & expect:
             if DC[k] is not todict[k]:
                 bad.append(["v", f"domain construct {k!r} is not the field's construct"])
@@ -311,6 +370,10 @@ class Gen:
         self.fshape = None if d is None else tuple(d.shape)
         self.fax = f.get_data_axes(default=None)
         self.keys_of = lambda *ts: [k for k, t in self.types.items() if t in ts]
+        self.named = []
+        for r in C.filter_by_type("coordinate_reference", todict=True).values():
+            self.named += [k for k in r.coordinates() if k in self.types]
+            self.named += [k for k in r.coordinate_conversion.domain_ancillaries().values() if k in self.types]
 
     def size(self):
         return self.r.choice([1, 1, 2, 3, 3, 5])
@@ -367,6 +430,8 @@ class Gen:
                 axes = self.pick_axes(1)
             else:
                 axes = self.pick_axes()
+                if axes and r.random() < 0.04:
+                    axes = axes + [r.choice(axes)]                        # an axis spanned twice
             op = {"op": "set", "via": via, "c": self.array_spec(t, axes), "key": None, "axes": axes}
             if r.random() < 0.1 and len(axes) == 1:
                 op["axes"] = axes[0]                                      # axes given as a string
@@ -426,6 +491,85 @@ class Gen:
             via = "f"
         return {"op": "set", "via": via, "c": spec, "key": key, "axes": None if keep else list(cur)}
 
+    def fresh_key(self, t):
+        r = self.r
+        for _ in range(20):
+            k = r.choice([BASE[t] + str(r.randrange(20, 60)), BASE[r.choice(ALL_TYPES)] + str(r.randrange(20, 60)),
+                          "mykey%d" % r.randrange(10)])
+            if k not in self.types:
+                return k
+        return "fresh%d" % r.randrange(1000, 9999)
+
+    def op_set_fresh_rejected(self, f):
+        """An insertion under a NEW explicit key that the container must reject:
+        afterwards the key must not be known in any way (the oracle probes it
+        on the field and on the domain view)."""
+        r = self.r
+        if not self.axes:
+            return self.op_set_axis("f")
+        ch = r.choice(["shape", "noaxis", "nonaxis", "axes-for-nonarray", "view-ignored", "dup-shape", "2d-dimcoord"])
+        via = "d" if r.random() < 0.3 else ("core" if r.random() < 0.15 else "f")
+        t = r.choice(ARRAY_TYPES)
+        axes = self.pick_axes(1) if t == "dimension_coordinate" else (self.pick_axes() or self.pick_axes(1))
+        if ch == "shape":
+            c = self.array_spec(t, axes, wrong=True)
+            if c.get("shape") is None:
+                c = {"t": t, "shape": [self.axes[a] + 1 for a in axes] or [2], "hasdata": True, "bnd": None}
+            op = {"op": "set", "via": via, "c": c, "key": self.fresh_key(t), "axes": axes}
+        elif ch == "noaxis":
+            op = {"op": "set", "via": via, "c": {"t": t, "shape": [3], "hasdata": True, "bnd": None},
+                  "key": self.fresh_key(t), "axes": [self.bad_key()]}
+        elif ch == "nonaxis":
+            other = self.keys_of(*ARRAY_TYPES)
+            op = {"op": "set", "via": via, "c": {"t": t, "shape": [3], "hasdata": True, "bnd": None},
+                  "key": self.fresh_key(t), "axes": [r.choice(other) if other else self.bad_key()]}
+        elif ch == "axes-for-nonarray":
+            t2 = r.choice(NON_ARRAY)
+            c = ({"t": t2, "size": self.size()} if t2 == "domain_axis" else
+                 {"t": t2, "coords": [], "ancs": {}} if t2 == "coordinate_reference" else
+                 {"t": t2, "axes": self.pick_axes(1)})
+            op = {"op": "set", "via": via, "c": c, "key": self.fresh_key(t2), "axes": self.pick_axes(1)}
+        elif ch == "view-ignored":
+            if r.random() < 0.5:
+                ax = self.pick_axes(1)
+                op = {"op": "set", "via": "d", "c": self.array_spec("field_ancillary", ax),
+                      "key": self.fresh_key("field_ancillary"), "axes": ax}
+            else:
+                op = {"op": "set", "via": "d", "c": {"t": "cell_method", "axes": self.pick_axes(1)},
+                      "key": self.fresh_key("cell_method"), "axes": None}
+        elif ch == "dup-shape":
+            a = self.pick_axes(1)
+            t = r.choice([x for x in ARRAY_TYPES if x != "dimension_coordinate"])
+            op = {"op": "set", "via": via, "c": {"t": t, "shape": [self.axes[a[0]], self.axes[a[0]] + 1],
+                                                   "hasdata": True, "bnd": None},
+                  "key": self.fresh_key(t), "axes": a + a}
+        else:
+            op = {"op": "set", "via": via, "c": {"t": "dimension_coordinate", "shape": [1, self.size()],
+                                                   "hasdata": True, "bnd": None},
+                  "key": self.fresh_key("dimension_coordinate"), "axes": None}
+        if r.random() < 0.15:
+            op["key"] = None              # the same rejected insertion with an automatic identifier
+        return op
+
+    def op_domain_axis_edit(self, f):
+        """Through the domain view (mostly): delete or resize a domain axis -
+        favouring axes that only constructs hidden from the view use."""
+        r = self.r
+        if not self.axes:
+            return self.op_set_axis("d")
+        hidden = set()
+        seen = set(self.fax or ())
+        for k, ax in self.daxes.items():
+            (hidden if self.types.get(k) in DOMAIN_IGNORES else seen).update(ax)
+        only_hidden = [a for a in self.axes if a in hidden and a not in seen]
+        axis = r.choice(only_hidden) if only_hidden and r.random() < 0.7 else r.choice(list(self.axes))
+        via = "d" if r.random() < 0.8 else r.choice(["f", "core"])
+        if r.random() < 0.5:
+            return {"op": "del", "via": via, "key": axis}
+        size = self.axes[axis]
+        return {"op": "set", "via": via, "c": {"t": "domain_axis", "size": (size or 0) + r.choice([1, 1, 2, 0])},
+                "key": axis, "axes": None}
+
     def op_set_axis(self, via):
         return {"op": "set", "via": via, "c": {"t": "domain_axis", "size": self.size()}, "key": None, "axes": None}
 
@@ -438,6 +582,9 @@ class Gen:
         # favour axes (guards) and referenced constructs
         if r.random() < 0.35 and self.axes:
             return {"op": "del", "via": via, "key": r.choice(list(self.axes))}
+        if r.random() < 0.45 and self.named:
+            multi = [k for k in set(self.named) if self.named.count(k) >= 2]
+            return {"op": "del", "via": via, "key": r.choice(multi if multi and r.random() < 0.7 else self.named)}
         return {"op": "del", "via": via, "key": r.choice(keys)}
 
     def op_set_data(self, f):
@@ -448,6 +595,8 @@ class Gen:
                 shape = shape + [2]
             return {"op": "set_data", "shape": shape, "axes": None}
         axes = self.pick_axes(r.choice([0, 1, 2, 2, 3]))
+        if axes and r.random() < 0.05:
+            axes = axes + [r.choice(axes)]                               # an axis spanned twice
         shape = [self.axes[a] for a in axes]
         op = {"op": "set_data", "shape": shape, "axes": axes}
         if r.random() < 0.1:
@@ -610,14 +759,40 @@ class Gen:
         for a in ax:
             if r.random() < 0.7:
                 ops.append({"op": "set", "via": "f", "c": self.array_spec("dimension_coordinate", [a]), "key": None, "axes": [a]})
+        made = {"dimension_coordinate": sum(1 for o in ops if o["op"] == "set" and o["c"]["t"] == "dimension_coordinate")}
         for t in ("auxiliary_coordinate", "cell_measure", "field_ancillary", "domain_ancillary", "auxiliary_coordinate"):
             if r.random() < 0.6:
                 axes = self.pick_axes(r.choice([1, 2, 2]))
                 ops.append({"op": "set", "via": "f", "c": self.array_spec(t, axes), "key": None, "axes": axes})
+                made[t] = made.get(t, 0) + 1
+        # two or three coordinate references that share coordinates and domain ancillaries
+        if r.random() < 0.5:
+            coords = (["dimensioncoordinate%d" % i for i in range(made.get("dimension_coordinate", 0))] +
+                      ["auxiliarycoordinate%d" % i for i in range(made.get("auxiliary_coordinate", 0))])
+            ancs = ["domainancillary%d" % i for i in range(made.get("domain_ancillary", 0))]
+            if coords:
+                shared = r.sample(coords, min(len(coords), r.choice([1, 1, 2])))
+                for j in range(r.choice([2, 2, 3])):
+                    extra = [c for c in coords if c not in shared and r.random() < 0.3]
+                    spec = {"t": "coordinate_reference", "coords": sorted(shared + extra), "ancs": {}}
+                    if ancs and r.random() < 0.7:
+                        spec["ancs"]["t0"] = ancs[0]
+                    ops.append({"op": "set", "via": "f", "c": spec, "key": None, "axes": None})
+        # a domain axis that only constructs hidden from the domain view use
+        if r.random() < 0.4:
+            extra = "domainaxis%d" % n
+            size = self.size()
+            ops.append({"op": "set", "via": "f", "c": {"t": "domain_axis", "size": size}, "key": None, "axes": None})
+            if r.random() < 0.75:
+                ops.append({"op": "set", "via": "f", "c": {"t": "field_ancillary", "shape": [size], "hasdata": True, "bnd": None},
+                            "key": None, "axes": [extra]})
+            else:
+                ops.append({"op": "set", "via": "f", "c": {"t": "cell_method", "axes": [extra]}, "key": None, "axes": None})
+            self.axes[extra] = size
         return ops
 
 
-WEIGHTS = [("op_set", 30), ("op_del", 16), ("op_set_data", 6), ("del_data", 2), ("op_set_data_axes", 9),
+WEIGHTS = [("op_set", 30), ("op_set_fresh_rejected", 5), ("op_domain_axis_edit", 5), ("op_del", 16), ("op_set_data", 6), ("del_data", 2), ("op_set_data_axes", 9),
            ("op_del_data_axes", 3), ("copy", 3), ("op_subspace", 8), ("op_squeeze", 6), ("op_transpose", 6),
            ("op_insert_dimension", 7), ("op_convert", 4)]
 
@@ -632,6 +807,48 @@ def next_op(g, f):
     if n == "copy":
         return {"op": "copy"}
     return getattr(g, n)(f)
+
+
+def situation(f, op):
+    """Which of the situations the property is about this call is in (read
+    from the live object before the call; used for coverage counters only)."""
+    sit = []
+    try:
+        C = f.constructs
+        types = C.construct_types()
+        key = op.get("key")
+        if op["op"] == "set" and isinstance(key, str) and key not in types:
+            sit.append("set-under-fresh-key")
+        if op["op"] == "del" and isinstance(key, str) and key in types:
+            n = 0
+            for r in C.filter_by_type("coordinate_reference", todict=True).values():
+                if key in r.coordinates() or key in r.coordinate_conversion.domain_ancillaries().values():
+                    n += 1
+            if n >= 2:
+                sit.append("del-named-by-2+-references")
+            elif n == 1:
+                sit.append("del-named-by-1-reference")
+        if (op.get("via") == "d" and isinstance(key, str) and types.get(key) == "domain_axis"
+                and (op["op"] == "del" or (op["op"] == "set" and op["c"]["t"] == "domain_axis"
+                                           and op["c"]["size"] != C[key].get_size(None)))):
+            seen = set(f.get_data_axes(default=()) or ())
+            hidden = set()
+            named = set()
+            for k, ax in C.data_axes().items():
+                (hidden if types.get(k) in DOMAIN_IGNORES else seen).update(ax)
+            for cm in C.filter_by_type("cell_method", todict=True).values():
+                named.update(cm.get_axes(()))
+            kind = "deletes" if op["op"] == "del" else "resizes"
+            if key in hidden and key not in seen:
+                sit.append(f"view-{kind}-axis-only-a-field-ancillary-spans")
+            elif key in named and key not in seen:
+                # resizing is harmless here (a cell method has no shape), deleting is not
+                sit.append(f"view-{kind}-axis-only-a-cell-method-names")
+            elif key in seen:
+                sit.append(f"view-{kind}-axis-in-use")
+    except Exception:
+        pass
+    return sit
 
 
 def run_case(case):
@@ -654,6 +871,7 @@ def run_case(case):
                 op["sizes"] = index_sizes(d.shape if d is not None else (3,), op["idx"])
         else:
             op = next_op(gen, f)
+        sit = situation(f, op)
         try:
             f = apply(f, op)
             out = "ok"
@@ -663,8 +881,12 @@ def run_case(case):
             st = read_state(f)
         except Exception as e:
             st = {"unreadable": f"{type(e).__name__}: {e}"}
-        bad = oracle(f)
-        steps.append({"op": op, "out": out, "state": "same" if st == prev else st, "bad": bad})
+        probes = [x for x in (op.get("key"),) if isinstance(x, str)]
+        if op["op"] == "set" and op.get("key") is None:
+            # the identifier an automatic insertion would have used next
+            probes += [BASE[op["c"]["t"]] + str(i) for i in range(0, 12)]
+        bad = oracle(f, probes)
+        steps.append({"op": op, "out": out, "state": "same" if st == prev else st, "bad": bad, "sit": sit})
         prev = st
     return {"id": case["id"], "steps": steps}
 
